@@ -407,4 +407,70 @@ theorem removing_established (i : Nat) (g : Nat × Nat → String) (cutoff : Int
     refine ⟨m2.1, fun j c' hj hc' => m2.2.2.1 j c' hj (by rw [← hc']; exact (set_other _ hj).symm), ?_⟩
     exact ⟨_, _, 0, 0, set_self hc2, rfl, hs, hd, fetch_pending u2.abs m2.1 cutoff scanned hnd⟩
 
+/-- a lazily started client scheduled for the first time: it arrives (performs its leading silent calls at the current
+clock) and then takes the step of a started client -/
+theorem step_lazy (u : USys) (i : Nat) (c : UClient) (hc : u.clients[i]? = some c) (hl : c.live = true) (hs : c.started = false) :
+    u.step (.call i) =
+      ({ u with abs := (c.settle u.abs u.clock).1,
+                clients := u.clients.set i { (c.settle u.abs u.clock).2.1 with started := true } } : USys).step (.call i) := by
+  have hself : (u.clients.set i { (c.settle u.abs u.clock).2.1 with started := true })[i]? =
+      some { (c.settle u.abs u.clock).2.1 with started := true } := set_self hc
+  simp only [USys.step, USys.stepT, hc, hl, hs, hself, Bool.not_true, Bool.false_eq_true, if_false, if_true, List.set_set]
+  split <;> rfl
+
+/-- a lazily started cleaner (`ServerCleaner.Clean` not yet begun) scheduled for the first time: it reads the clock — the
+cutoff is fixed at `u.clock − retention` — and scans, in the same step -/
+theorem usys_clean_scan_lazy (u : USys) (i : Nat) (c : UClient) (g : Nat × Nat → String) (retention : Int)
+    (hc : u.clients[i]? = some c) (hp : c.prog = rendered (cleanServers2 retention) g) (hs : c.started = false) (hd : c.dead = false) :
+    u.step (.call i) =
+      { u with clients := u.clients.set i { c with prog := rendered (afterScan (u.clock - retention) (u.abs.filter { updatedBefore := some (u.clock - retention) })) g, arrival := u.clock, started := true } } := by
+  have hp' : c.prog = .call .now fun now => rendered (afterNow (now - retention)) g := by rw [hp]; rfl
+  rw [step_lazy u i c hc (live_of_call c _ _ hp' hd) hs]
+  have hsettle : c.settle u.abs u.clock = (u.abs, { c with prog := rendered (afterNow (u.clock - retention)) g, arrival := u.clock }, []) := by
+    simp only [UClient.settle, hp']
+    rfl
+  rw [hsettle]
+  rw [usys_clean_scan _ i { c with prog := rendered (afterNow (u.clock - retention)) g, arrival := u.clock, started := true } g
+    (u.clock - retention) (set_self hc) rfl rfl hd]
+  simp only [List.set_set]
+
+/-- from a state right after the scan (the cleaner holds the scanned copies, pairwise different keys) to the removal phase -/
+theorem removing_after_scan (i : Nat) (g : Nat × Nat → String) (cutoff : Int) (u1 : USys) (c1 : UClient) (scanned : List Server)
+    (hc1 : u1.clients[i]? = some c1) (hp1 : c1.prog = rendered (afterScan cutoff scanned) g) (hs : c1.started = true)
+    (hd : c1.dead = false) (hnd : (scanned.map (·.addr.key)).Nodup) (hk : Keyed u1.abs)
+    (hcl : ∀ (j : Nat) (c' : UClient), j ≠ i → u1.clients[j]? = some c' → ProgStable c'.prog)
+    (es1 : List UEv) (hes1 : ∀ e ∈ es1, EvOK (NotMe i) e) :
+    Removing i g cutoff ((u1.run es1).step (.call i)) := by
+  have m2 := usys_run_mono (NotMe i) u1 es1 hes1 hk hcl
+  have hc2 := (m2.2.2.2 i (fun hh => hh rfl)).trans hc1
+  generalize u1.run es1 = u2 at m2 hc2
+  cases hne : scanned.isEmpty with
+  | true =>
+    have hprog : c1.prog = rendered (removeAll cutoff [] 0 0) g := by
+      rw [hp1]; unfold afterScan; simp only [hne, if_true]; rfl
+    have hl : c1.live = false := by
+      have : c1.prog = .ret (g (0, 0)) := by rw [hprog]; rfl
+      simp [UClient.live, this, Prog.result?]
+    rw [step_finished u2 i _ hc2 hl]
+    exact ⟨m2.1, m2.2.2.1, _, [], 0, 0, hc2, hprog, hs, hd, Pending.nil _ _⟩
+  | false =>
+    rw [usys_clean_fetch u2 i _ g cutoff scanned hne hc2 hp1 hs hd]
+    refine ⟨m2.1, fun j c' hj hc' => m2.2.2.1 j c' hj (by rw [← hc']; exact (set_other _ hj).symm), ?_⟩
+    exact ⟨_, _, 0, 0, set_self hc2, rfl, hs, hd, fetch_pending u2.abs m2.1 cutoff scanned hnd⟩
+
+/-- `removing_established` for a cleaner that has not begun: its first scheduling reads the clock and scans -/
+theorem removing_established_lazy (i : Nat) (g : Nat × Nat → String) (retention : Int) (u : USys) (c : UClient)
+    (hc : u.clients[i]? = some c) (hp : c.prog = rendered (cleanServers2 retention) g) (hs : c.started = false) (hd : c.dead = false)
+    (hk : Keyed u.abs) (hcl : ∀ (j : Nat) (c' : UClient), j ≠ i → u.clients[j]? = some c' → ProgStable c'.prog)
+    (es1 : List UEv) (hes1 : ∀ e ∈ es1, EvOK (NotMe i) e) :
+    Removing i g (u.clock - retention) (((u.step (.call i)).run es1).step (.call i)) := by
+  have e1 := usys_clean_scan_lazy u i c g retention hc hp hs hd
+  refine removing_after_scan i g (u.clock - retention) (u.step (.call i))
+    { c with prog := rendered (afterScan (u.clock - retention) (u.abs.filter { updatedBefore := some (u.clock - retention) })) g, arrival := u.clock, started := true }
+    (u.abs.filter { updatedBefore := some (u.clock - retention) }) (by rw [e1]; exact set_self hc) rfl rfl hd
+    (scanned_keys_nodup u.abs hk _) (by rw [e1]; exact hk) ?_ es1 hes1
+  intro j c' hj hc'
+  rw [e1] at hc'
+  exact hcl j c' hj (by rw [← hc']; exact (set_other _ hj).symm)
+
 end Swat4.CleanRace
